@@ -707,3 +707,88 @@ Definition run_case (c : case) : list (list Z) :=
   obs_run (table_pf (c_table c)) false (cfg_of c) (disp_of c) (init_of c) (c_ops c).
 Definition run_case_legacy (c : case) : list (list Z) :=
   obs_run (table_pf (c_table c)) true (cfg_of c) (disp_of c) (init_of c) (c_ops c).
+
+(* ---------------------------------------------------------------------- *)
+(* several agents under one ImmuneSystem                                    *)
+
+(* Every registered agent has its own display, watcher and tolerance record;
+   the immune memory, its clock and the configuration are shared.  Agents are
+   numbers (the harness maps them to agent-id strings, among them ids that
+   differ only in case or in outer whitespace: to the code, and here, different
+   ids are different agents; number 0 is the id "a" of the one-agent cases).
+   Agent [k] sees the shared memory with its own number and 0 exchanged
+   ([relabel k]: an involution on the entries that keeps the order of the list),
+   so the one-agent definitions above apply verbatim to its view. *)
+Definition swap_agent (k z : Z) : Z := if z =? k then 0 else if z =? 0 then k else z.
+Definition relabel (k : Z) (m : msig) : msig :=
+  mkSig (swap_agent k (m_agent m)) (m_vh m) (m_sh m) (m_level m) (m_action m)
+        (m_created m) (m_accessed m) (m_types m).
+
+Record agent_st := mkAg { a_disp : display; a_tcell : option tcell; a_rec : option trec }.
+Record world := mkWorld { w_agents : Z -> agent_st; w_mem : list msig; w_clock : Z; w_imp : Z }.
+
+(* the one-agent system agent k lives in *)
+Definition view (k : Z) (w : world) : sys :=
+  mkSys (a_tcell (w_agents w k)) (map (relabel k) (w_mem w)) (a_rec (w_agents w k)) (w_clock w) (w_imp w).
+
+Definition put (k : Z) (d : display) (s : sys) (w : world) : world :=
+  mkWorld (fun j => if j =? k then mkAg d (s_tcell s) (s_rec s) else w_agents w j)
+          (map (relabel k) (s_mem s)) (s_clock s) (s_imp s).
+
+(* one call of the API about agent k (operations on the shared memory that name
+   agents in their arguments are issued with k = 0, where relabel is the identity) *)
+Definition world_step (pf : list Z -> list bool -> peptide) (rnd : Q -> Q) (legacy : bool) (g : cfg)
+           (w : world) (k : Z) (a : aop) : world * outcome :=
+  let d := a_disp (w_agents w k) in
+  match lower pf d a with
+  | Some o => let '(s', out) := sys_step rnd legacy g (view k w) o in (put k d s' w, out)
+  | None => (put k (disp_step d a) (view k w) w, OutUnit)
+  end.
+
+(* trace of a history over several agents: world before, agent, call, outcome *)
+Fixpoint wrun (pf : list Z -> list bool -> peptide) (rnd : Q -> Q) (legacy : bool) (g : cfg)
+         (w : world) (ops : list (Z * aop)) : list (world * Z * aop * outcome) :=
+  match ops with
+  | [] => []
+  | (k, a) :: rest =>
+      let '(w', out) := world_step pf rnd legacy g w k a in
+      (w, k, a, out) :: wrun pf rnd legacy g w' rest
+  end.
+
+(* agent k's own state next to the shared memory as it is (no relabelling) *)
+Definition agent_sys (k : Z) (w : world) : sys :=
+  mkSys (a_tcell (w_agents w k)) (w_mem w) (a_rec (w_agents w k)) (w_clock w) (w_imp w).
+
+Fixpoint wobs_run (pf : list Z -> list bool -> peptide) (g : cfg) (w : world) (ops : list (Z * aop))
+  : list (list Z) :=
+  match ops with
+  | [] => []
+  | (k, a) :: rest =>
+      let d := a_disp (w_agents w k) in
+      let '(w', out) := world_step pf (fun x => x) false g w k a in
+      match lower pf d a with
+      | None => wobs_run pf g w' rest
+      | Some o =>
+          let fp := match a, out with
+                    | ASys _, _ => []
+                    | _, OutRaise => [66; -5]
+                    | _, _ => 66 :: pep_obs (fingerprint pf d)
+                    end in
+          (op_code o :: outcome_obs out ++ trained_obs (view k w') o out ++ fp ++
+           77 :: k :: state_obs (agent_sys k w')) :: wobs_run pf g w' rest
+      end
+  end.
+
+(* a case is a one-agent history, or a history over several registered agents
+   (all untrained at first, each with an empty display and a fresh tolerance
+   record; configuration, window sizes and fingerprint oracle taken from [c]) *)
+Inductive xcase := XOne (c : case) | XWorld (c : case) (ops : list (Z * aop)).
+
+Definition world_of (c : case) : world :=
+  mkWorld (fun _ => mkAg (disp_of c) None (Some (mkRec 0 0 false []))) [] 0 0.
+
+Definition run_xcase (x : xcase) : list (list Z) :=
+  match x with
+  | XOne c => run_case c
+  | XWorld c ops => wobs_run (table_pf (c_table c)) (cfg_of c) (world_of c) ops
+  end.
